@@ -58,6 +58,34 @@ Definition C04_join_returns_held_stmt : Prop :=
     pstep cfg s (PPath (PJoin h k' keep)) = (Ret (RObjs res), s') ->
     In (id, tok) res -> tok = slot_of s o /\ tok <> None.
 
+(* a unique-index lookup (Cls.<index>.get(value) = selectBy(...).getOne()) hands back the very object the application
+   holds for the row it finds *)
+Definition C04_index_returns_held_stmt : Prop :=
+  forall cfg pops k u o id' tok s',
+    forallb pguard04 pops = true ->
+    let s := prun cfg pops in
+    held s o -> current s o -> is_row s o k id' ->
+    pstep cfg s (PPath (PIndex k u)) = (Ret (RObj id' tok), s') ->
+    tok = slot_of s o /\ tok <> None.
+
+(* ... it finds THE row whose indexed column holds the key: exactly one row matches, it is the row returned, and it exists
+   afterwards (a deleted row is never handed out, unpickling in the history or not) *)
+Definition C04_index_yields_row_stmt : Prop :=
+  forall cfg pops k u id' tok s',
+    forallb pguard04 pops = true ->
+    let s := prun cfg pops in
+    pstep cfg s (PPath (PIndex k u)) = (Ret (RObj id' tok), s') ->
+    (exists r, index_rows s k u = [(id', r)] /\ assoc id' (t_rows (tbl s' k)) = Some r) /\ tables s' = tables s.
+
+(* ... and when no row holds the key it raises not-found and builds nothing *)
+Definition C04_index_absent_stmt : Prop :=
+  forall cfg pops k u,
+    forallb pguard04 pops = true ->
+    let s := prun cfg pops in
+    index_rows s k u = [] ->
+    fst (pstep cfg s (PPath (PIndex k u))) = Raise ENotFound /\
+    heap (snd (pstep cfg s (PPath (PIndex k u)))) = heap s /\ caches (snd (pstep cfg s (PPath (PIndex k u)))) = caches s.
+
 (* with no unpickling in the history, a foreign key never leads to an instance of a deleted row (it raises not-found) *)
 Definition C04_fk_deleted_not_returned_stmt : Prop :=
   forall cfg pops h k' id' tok s',
@@ -128,6 +156,14 @@ Definition C04_join_returns_held_faults_stmt : Prop :=
     held s o -> current s o -> is_row s o k' id ->
     pstep cfg s (PPath (PJoin h k' keep)) = (Ret (RObjs res), s') ->
     In (id, tok) res -> tok = slot_of s o /\ tok <> None.
+
+Definition C04_index_returns_held_faults_stmt : Prop :=
+  forall cfg pops k u o id' tok s',
+    forallb pguard04f pops = true ->
+    let s := prun cfg pops in
+    held s o -> current s o -> is_row s o k id' ->
+    pstep cfg s (PPath (PIndex k u)) = (Ret (RObj id' tok), s') ->
+    tok = slot_of s o /\ tok <> None.
 
 Definition C04_fk_deleted_not_returned_faults_stmt : Prop :=
   forall cfg pops h k' id' tok s',
